@@ -1,6 +1,7 @@
 (* The file each of the three writers compiles, as translated from the source (SrcWn.v, re-generated from /repo on every run): a writer
    holding no object opens no compiler (writes no file); otherwise exactly one compiler, given the stem of the configured name followed by
-   _WG.pgm / _NASU.pgm / _MK.pgm.  With SRC_C19_close (EquivPa.v) that compiler writes export_dir/<that name>. *)
+   _WG.pgm / _NASU.pgm / _MK.pgm, and then stores the estimate of this export in self._fabtime - for either value of `verbose` (C09: a
+   quiet export must not leave an older estimate behind; anything stored under `if verbose:` leaves the translator's subset).  With SRC_C19_close (EquivPa.v) that compiler writes export_dir/<that name>. *)
 From Coq Require Import List Bool String.
 Import ListNotations.
 From Femto Require Import Persist.Paths.
@@ -8,7 +9,7 @@ From FemtoTie Require Import PyPrelude WnState SrcWn.
 Local Open Scope string_scope.
 
 Definition expected (c : wn_cfg) (suffix : string) : list wact :=
-  if wn_has_objects c then [WBegin (stem (wn_filename c) ++ suffix); WEnd] else [].
+  if wn_has_objects c then [WBegin (stem (wn_filename c) ++ suffix); WEnd; WFab] else [].
 
 Theorem SRC_C08_wg_file : forall c verbose, src_pgm_wg c verbose [] = (Ret tt, expected c "_WG.pgm").
 Proof. intros c verbose. unfold src_pgm_wg, expected. destruct (wn_has_objects c); reflexivity. Qed.
